@@ -242,16 +242,59 @@ def empty_test(e: ast.AST) -> tuple[ast.Name, bool] | None:
         return (r[0], not r[1]) if r is not None else None
     if isinstance(e, ast.Name):
         return e, False
+    ln = _len_arg(e)
+    if ln is not None:
+        return ln, False  # `len(x)` as a truth value
     if isinstance(e, ast.Compare) and len(e.ops) == 1:
         a, op, b = e.left, e.ops[0], e.comparators[0]
         if isinstance(a, ast.Constant):
             a, b = b, a
+            op = {ast.Lt: ast.Gt, ast.Gt: ast.Lt, ast.LtE: ast.GtE, ast.GtE: ast.LtE}.get(type(op), type(op))()
         if isinstance(a, ast.Name) and isinstance(b, ast.Constant) and b.value == "":
             if isinstance(op, ast.Eq):
                 return a, True
             if isinstance(op, ast.NotEq):
                 return a, False
+        ln = _len_arg(a)
+        if ln is not None and isinstance(b, ast.Constant) and type(b.value) is int:
+            # len(x) == 0 / != 0 / > 0 / >= 1 / < 1 / <= 0
+            k = b.value
+            if (isinstance(op, ast.Eq) and k == 0) or (isinstance(op, ast.Lt) and k == 1) or (isinstance(op, ast.LtE) and k == 0):
+                return ln, True
+            if (isinstance(op, ast.NotEq) and k == 0) or (isinstance(op, ast.Gt) and k == 0) or (isinstance(op, ast.GtE) and k == 1):
+                return ln, False
     return None
+
+
+def _len_arg(e: ast.AST) -> ast.Name | None:
+    if isinstance(e, ast.Call) and isinstance(e.func, ast.Name) and e.func.id == "len" and len(e.args) == 1 and not e.keywords and isinstance(e.args[0], ast.Name):
+        return e.args[0]
+    return None
+
+
+def const_fact(unit: Unit, e: ast.AST) -> tuple[str, tuple[str, ...], str] | None:
+    """a condition atom that pins a *name* to finitely many string constants on one of its edges:
+    (name, constants, label of the edge on which `name in constants` holds).  Emptiness tests (`not x`, `x == ""`,
+    `len(x) == 0`), `x == c`, `x != c`, `x in (c1, c2)`, `x[:3] == ".."` (which is `x == ".."`)."""
+    r = empty_test(e)
+    if r is not None:
+        return r[0].id, ("",), "T" if r[1] else "F"
+    p = parse_atom(unit, e)
+    if p is not None and p[0] in ("eq", "in") and p[1]:
+        return p[3].id, tuple(p[1]), p[2]
+    return None
+
+
+def harmless_const(c: str, what: str) -> bool:
+    """is the constant path component `c` free of the escaping shape `what` - judged on the text as it is joined
+    (a constant is not normalised, so no '..' *segment* at all is allowed, not only a leading one)."""
+    if what == "abs":
+        return not c.startswith("/")
+    if what in ("dotdot", "dotdot/"):
+        return ".." not in c.split("/")
+    if what == "altsep":
+        return all(ch.isalnum() or ch in "._-/ " for ch in c)  # no character that is a path separator on any host
+    raise KeyError(what)
 
 
 def _leaves(e: ast.AST) -> list[ast.AST]:
@@ -532,12 +575,90 @@ def position(u: Unit, n: ast.AST, passes: t.Callable[[ast.Call, ast.AST], bool] 
             pp = astq.parent(p)
             if isinstance(pp, ast.Assign) and pp.value is p and len(pp.targets) == 1 and isinstance(pp.targets[0], (ast.Tuple, ast.List)) and len(pp.targets[0].elts) == len(p.elts) and all(isinstance(x, ast.Name) for x in pp.targets[0].elts):
                 return "bind"
+            if isinstance(p, ast.List) and _held_by_name(p):
+                return "bind"  # kept in a list that is bound to a name: judged where the elements are taken out
             return "use"
+        if isinstance(p, (ast.For, ast.AsyncFor)) and cur is p.iter and isinstance(p.target, ast.Name):
+            return "bind"  # the elements are bound to the loop variable one by one
         if isinstance(p, ast.Return):
             return "return"
         if isinstance(p, ast.Expr):
             return "discard"
         return "use"
+
+
+_EXC_PARENTS = {
+    "FileNotFoundError": ("OSError", "IOError", "EnvironmentError"), "PermissionError": ("OSError", "IOError", "EnvironmentError"),
+    "IsADirectoryError": ("OSError", "IOError", "EnvironmentError"), "NotADirectoryError": ("OSError", "IOError", "EnvironmentError"),
+    "KeyError": ("LookupError",), "IndexError": ("LookupError",), "UnicodeError": ("ValueError",), "UnicodeDecodeError": ("UnicodeError", "ValueError"),
+}
+
+
+def _catching_handlers(n: Node) -> list[Node] | None:
+    """for the node of `raise E(...)` / `raise E` with E a builtin exception class: the successor handler nodes
+    whose `except` clause names E (or a base class of it); None when the raise is not of that form or no handler of
+    the surrounding try names it (then every edge the CFG has is followed)."""
+    a = n.ast
+    if not isinstance(a, ast.Raise) or a.exc is None:
+        return None
+    exc = a.exc.func if isinstance(a.exc, ast.Call) else a.exc
+    name = dotted(exc)
+    if name is None or "." in name:
+        return None
+    accepted = {name, "Exception", "BaseException", *_EXC_PARENTS.get(name, ())}
+    out = []
+    for s, _lab in n.succs:
+        if s.kind != "handler" or not isinstance(s.ast, ast.ExceptHandler):
+            continue
+        tp = s.ast.type
+        names = [dotted(x) for x in (tp.elts if isinstance(tp, ast.Tuple) else [tp])] if tp is not None else ["BaseException"]
+        if any(x in accepted for x in names if x):
+            out.append(s)
+    return out[:1] or None
+
+
+def _held_by_name(disp: ast.AST) -> bool:
+    """is the list display (possibly an arm of a conditional expression) the value bound to a single name?"""
+    cur = disp
+    p = astq.parent(cur)
+    while isinstance(p, ast.IfExp) and cur is not p.test:
+        cur, p = p, astq.parent(p)
+    return (isinstance(p, ast.Assign) and p.value is cur and len(p.targets) == 1 and isinstance(p.targets[0], ast.Name)) or (isinstance(p, ast.AnnAssign) and p.value is cur and isinstance(p.target, ast.Name))
+
+
+def held_elements(e: ast.AST | None, depth: int = 0) -> list[ast.AST] | None:
+    """the element expressions of a list / tuple display (or of a conditional expression whose arms are displays,
+    or list(...) / tuple(...) of one); None when e is not such a holder."""
+    if e is None or depth > 4:
+        return None
+    if isinstance(e, (ast.List, ast.Tuple, ast.Set)):
+        return [x.value if isinstance(x, ast.Starred) else x for x in e.elts]
+    if isinstance(e, ast.IfExp):
+        a, b = held_elements(e.body, depth + 1), held_elements(e.orelse, depth + 1)
+        return a + b if a is not None and b is not None else None
+    if isinstance(e, ast.Call) and isinstance(e.func, ast.Name) and e.func.id in ("list", "tuple") and len(e.args) <= 1 and not e.keywords:
+        return held_elements(e.args[0], depth + 1) if e.args else []
+    return None
+
+
+def growth_args(fn: ast.AST, name: str) -> list[tuple[ast.AST, ast.AST, bool]]:
+    """(statement, value put in, is the value itself a sequence of elements) for every in-place growth of the
+    list bound to `name` in the function body: append / insert / extend / `L[i] = v` / `L[a:b] = vs`."""
+    out: list[tuple[ast.AST, ast.AST, bool]] = []
+    for n in own_nodes(fn):
+        if isinstance(n, ast.Call) and isinstance(n.func, ast.Attribute) and astq.is_name(n.func.value, name):
+            m = n.func.attr
+            if m in ("append", "appendleft", "add") and len(n.args) == 1:
+                out.append((n, n.args[0], False))
+            elif m == "insert" and len(n.args) == 2:
+                out.append((n, n.args[1], False))
+            elif m in ("extend", "extendleft", "update") and len(n.args) == 1:
+                out.append((n, n.args[0], True))
+        elif isinstance(n, ast.Assign):
+            for tg in n.targets:
+                if isinstance(tg, ast.Subscript) and astq.is_name(tg.value, name):
+                    out.append((n, n.value, isinstance(tg.slice, ast.Slice)))
+    return out
 
 
 # ---------------------------------------------------------------------
@@ -612,12 +733,31 @@ class Nulls:
         if d.kind == "param":
             out = frozenset([self.param_src[d.name]]) if d.name in self.param_src else out
         elif d.kind in ("assign", "walrus") and d.value is not None and d.node is not None and d.index is None:
-            out = self.origins(d.value, d.node, (), guarded, 1)
+            out = self.origins(d.value, d.node, (), guarded, 1) | self.held(d.value, d.node, guarded)
+        elif d.kind == "for" and d.index is None and d.value is not None and d.node is not None:
+            # the loop variable takes the elements of what is iterated: a list held by a name, or a display
+            out = self.held(d.value, d.node, guarded)
+            if self.elements:
+                out |= self.origins(d.value, d.node, (), guarded, 1)
+            if isinstance(d.value, ast.Name):
+                for hd in self.u.rd.reaching(d.node, d.value.id):
+                    if hd.kind in ("assign", "walrus") and hd.index is None and hd.value is not None and hd.node is not None:
+                        out |= self.held(hd.value, hd.node, guarded)
+                for _st, v, seq in growth_args(self.u.node, d.value.id):
+                    vn = self.u.cfg.node_of(v)
+                    out |= (self.held(v, vn, guarded) if seq else self.origins(v, vn, ancestor_conds(self.u, v), guarded, 1))
         elif d.kind == "unpack" and isinstance(d.value, (ast.Tuple, ast.List)) and d.index is not None and d.index < len(d.value.elts) and not any(isinstance(x, ast.Starred) for x in d.value.elts) and d.node is not None:
             out = self.origins(d.value.elts[d.index], d.node, (), guarded, 1)
-        elif self.elements and d.kind == "unpack" and d.value is not None and d.node is not None:
-            out = self.origins(d.value, d.node, (), guarded, 1)
+        elif self.elements and d.kind in ("unpack", "for") and d.value is not None and d.node is not None:
+            out = self.origins(d.value, d.node, (), guarded, 1)  # an element of what the call delivered
         self._memo[key] = out
+        return out
+
+    def held(self, e: ast.AST | None, node: Node | None, guarded: bool = True) -> frozenset[ast.AST]:
+        """sources whose None may sit *inside* the list / tuple that `e` builds (see held_elements)."""
+        out: frozenset[ast.AST] = frozenset()
+        for x in held_elements(e) or []:
+            out |= self.origins(x, node, ancestor_conds(self.u, x), guarded, 1)
         return out
 
     # -- paths ---------------------------------------------------------------
@@ -683,9 +823,12 @@ class Nulls:
                 return False
             if n.id in killers:
                 is_none = False
+            caught = _catching_handlers(n)
             for s, lab in n.succs:
                 if is_none and (n.id, lab) in blocked:
                     continue
+                if caught is not None and s not in caught:
+                    continue  # `raise E(...)` inside a try that has an `except E`: that handler takes it
                 stack.append((s, is_none))
         return True
 
@@ -811,6 +954,10 @@ class Prov:
             s = self.follow(e)
             if s is not None:
                 return (s.kind, f"`{norm(e)[:60]}` returns {s.why}" if s.kind == X_ else "")
+        if isinstance(e, ast.Subscript) and not isinstance(e.slice, ast.Slice) and self.is_holder(e.value, node):
+            k, why = self.kind(e.value, node, depth + 1, conds)  # one of the values the list holds, as it is
+            ki, whyi = self.kind(e.slice, node, depth + 1, conds)
+            return (k, why) if k == X_ or ki != X_ else (X_, whyi)
         kinds: list[str] = []
         for ch in ast.iter_child_nodes(e):
             if isinstance(ch, (ast.expr_context, ast.operator, ast.cmpop, ast.boolop, ast.unaryop)):
@@ -835,8 +982,36 @@ class Prov:
             return J_, ""
         return X_, f"a safe_join result passes through `{norm(e)[:70]}` after the containment check (only a copy, a selection or os.path.join with trusted operands keeps the guarantee)"
 
+    def is_holder(self, e: ast.AST | None, node: Node | None, depth: int = 0) -> bool:
+        """does `e` denote a list / tuple that merely *holds* path values (a display, list(...) of one, or a name
+        every reaching binding of which is such a holder)?  Taking an element out / spreading it with `*` gives the
+        held values back unchanged, unlike indexing or slicing a path string."""
+        if depth > 4 or e is None:
+            return False
+        if held_elements(e) is not None:
+            return True
+        if isinstance(e, ast.Name) and node is not None:
+            defs = self.u.rd.reaching(node, e.id)
+            return bool(defs) and all(
+                (d.kind in ("assign", "walrus") and d.index is None and d.node is not None and self.is_holder(d.value, d.node, depth + 1))
+                or (d.kind == "aug" and d.node is not None and held_elements(d.value) is not None and all(self._holder_def(p_, depth + 1) for p_ in self.u.rd.reaching(d.node, d.name) if p_ is not d))
+                for d in defs
+            )
+        return False
+
+    def _holder_def(self, d: Def, depth: int = 0) -> bool:
+        if d.kind in ("assign", "walrus") and d.index is None and d.node is not None:
+            return self.is_holder(d.value, d.node, depth)
+        if d.kind == "aug" and d.node is not None and held_elements(d.value) is not None and depth < 4:
+            return all(self._holder_def(p_, depth + 1) for p_ in self.u.rd.reaching(d.node, d.name) if p_ is not d)
+        return False
+
     def _keeps(self, e: ast.AST) -> bool:
         if isinstance(e, ast.Starred):
+            return True
+        if isinstance(e, (ast.List, ast.Tuple, ast.Set)):
+            return True  # a display holds its elements as they are
+        if isinstance(e, ast.Call) and isinstance(e.func, ast.Name) and e.func.id in ("list", "tuple") and len(e.args) == 1 and not e.keywords and held_elements(e) is not None:
             return True
         if isinstance(e, ast.Call) and not e.keywords:
             fq = self.u.resolve(e.func)
@@ -862,6 +1037,17 @@ class Prov:
             k, why = self._def(d, depth)
             if k == X_:
                 return k, why
+            res = join_kind(res, k)
+        # what is put into the object after its creation is part of it (append / insert / extend / item store)
+        for st, v, _seq in growth_args(u.node, e.id):
+            sn = u.cfg.node_of(st)
+            if sn is None or not (u.rd.reaching(sn, e.id) & defs):
+                continue
+            k, why = self.kind(v, sn, depth + 1, ancestor_conds(u, v))
+            if k == X_:
+                return X_, f"`{norm(st)[:60]}` puts it into `{e.id}`: {why}"
+            if k == J_ and not self.is_holder(e, node):
+                return X_, f"a safe_join result is stored into `{e.id}` (`{norm(st)[:50]}`), which is not a plain list of path values"
             res = join_kind(res, k)
         return res, ""
 
@@ -910,8 +1096,12 @@ class Prov:
                     k = X_
                     break
                 if J_ in (pk, k):
+                    if held_elements(d.value) is not None and self._holder_def(p):
+                        k = join_kind(pk, k)  # `L += [x]` on a list of path values: one more held value
+                        continue
                     k, why = X_, "a safe_join result is modified in place after the containment check"
                     break
+                k = join_kind(pk, k)
         if k == X_:
             return X_, f"`{d.name}` <- `{norm(d.value)[:70]}`: {why}" if why and not why.startswith(f"`{d.name}` <-") else (why or f"`{d.name}` <- `{norm(d.value)[:70]}`")
         return k, ""
